@@ -85,6 +85,16 @@ theorem conversion_step_accuracy (fm : Fm) (s1 s2 : Bool) (m1 m2 : Nat) (e1 e2 :
       (fm.fmt.u * (1 + c) + c) * (|Fl.toReal (.fin s1 m1 e1)| * A) :=
   Fl.mul_const_accuracy fm.fmt (by cases fm <;> decide) s1 s2 m1 m2 e1 e2 h1 h2 A c hA hc hK hnorm hr hfin
 
+/-- The same for a kernel `x ↦ x / K`. -/
+theorem conversion_step_accuracy_div (fm : Fm) (s1 s2 : Bool) (m1 m2 : Nat) (e1 e2 : Int)
+    (h1 : 0 < m1) (h2 : 0 < m2) (A c : ℝ) (hA : 0 < A) (hc : 0 ≤ c) (hc1 : c < 1)
+    (hK : |Fl.toReal (.fin s2 m2 e2) - A| ≤ c * A)
+    (hnorm : fm.fmt.minNormal ≤ |Fl.toReal (.fin s1 m1 e1) / Fl.toReal (.fin s2 m2 e2)|)
+    {r : Fl} (hr : Fl.div fm.fmt (.fin s1 m1 e1) (.fin s2 m2 e2) = r) (hfin : r.isFinite = true) :
+    |Fl.toReal r - Fl.toReal (.fin s1 m1 e1) / A| ≤
+      (fm.fmt.u * (1 + c / (1 - c)) + c / (1 - c)) * (|Fl.toReal (.fin s1 m1 e1)| / A) :=
+  Fl.div_const_accuracy fm.fmt (by cases fm <;> decide) s1 s2 m1 m2 e1 e2 h1 h2 A c hA hc hc1 hK hnorm hr hfin
+
 /-! ### Non-vacuity -/
 
 example : (kernelRows .f64).length = 37 := by decide
